@@ -70,6 +70,11 @@ var pipes = map[string]pipeSpec{
 	// UDF node (in-process mirror agent over pipes) in the middle
 	"udf": {Counted: true, Meas: []string{"m"}, Outs: []outSpec{{"s", "log", "m"}},
 		Script: func(a *attempt) string { return `stream|from().measurement('m')@mirror()|log().prefix('s')` }},
+	// fork with a stats() node: its goroutine ends only through its stopF
+	"stats": {Counted: true, Meas: []string{"m"}, Outs: []outSpec{{"s", "log", "m"}},
+		Script: func(a *attempt) string {
+			return "var f = stream|from().measurement('m')\nf|log().prefix('s')\nf|stats(1h)|log().prefix('st')"
+		}},
 	// failing middle node (alert id template) with a sink behind and in front of it
 	"midfail": {Counted: true, Meas: []string{"m"}, Outs: []outSpec{{"pre", "log", "m"}, {"h", "alert", "m"}, {"s", "log", "m"}},
 		Script: func(a *attempt) string {
@@ -197,6 +202,25 @@ func scenarios(r *rt.Run) ([]scen, int) {
 		{Pipe: "influx3", N: 50, Stall: "sink:db", Release: "after", Fail: "panic:influxdb_out:5"},
 		{Pipe: "alert", N: 50, Stall: "sink:h", Release: "after", Fail: "panic:alert:5"},
 		{Pipe: "loopback", N: 50, Release: "before", Fail: "panic:kapacitor_loopback:5"},
+		// a node panics early and more than one edge buffer of data follows: the panic must still abort the
+		// parent edges, otherwise the nodes upstream fill an edge nobody reads and the stop never returns
+		{Pipe: "chain", N: 2300, Release: "before", Fail: "panic:where:5"},
+		{Pipe: "chain", N: 2300, Release: "before", Fail: "panic:influxdb_out:5"},
+		{Pipe: "chain", N: 2300, Release: "before", Fail: "runpanic:where"},
+		{Pipe: "log", N: 2300, Release: "before", Fail: "panic:log:5"},
+		{Pipe: "alert", N: 2300, Release: "before", Fail: "panic:alert:5"},
+		{Pipe: "fork", N: 2300, Release: "before", Fail: "panic:log:5"},
+		{Pipe: "union", N: 2400, Release: "before", Fail: "panic:log:5"},
+		// one branch of a fork has failed, the sibling branch (later in pipeline order) still holds a backlog
+		// behind its stalled sink when the stop is requested: the stop must wait for it all the same
+		// (the failure cascades up to the first node while the sibling is stuck behind its sink)
+		{Pipe: "fork", N: 2300, Stall: "sink:db", Release: "after", Fail: "panic:log:5"},
+		{Pipe: "fork", N: 2300, Stall: "sink:s", Release: "after", Fail: "panic:influxdb_out:5"},
+		{Pipe: "fork", N: 50, Stall: "sink:s", Release: "after", Fail: "panic:influxdb_out:3"},
+		{Pipe: "fork", N: 50, Stall: "sink:db", Release: "after", Fail: "panic:log:30"},
+		// ... and a stats() node later in pipeline order must still be stopped
+		{Pipe: "stats", N: 50, Release: "before", Fail: "panic:log:5"},
+		{Pipe: "stats", N: 50, Release: "before"},
 		// the child of a UDF node fails while the UDF still has output pending
 		{Pipe: "udf", N: 50, Release: "before", Fail: "panic:log:5"},
 		{Pipe: "udf", N: 2300, Stall: "sink:s", Release: "after", Fail: "panic:log:5"},
